@@ -289,6 +289,8 @@ func corpus11() []call11 {
 	optObj := cty.ObjectWithOptionalAttrs(map[string]cty.Type{"a": cty.String, "b": cty.Number}, []string{"b"})
 	return []call11{
 		{"Indent", []cty.Value{n(-1), s("a\nb")}},
+		{"Format", []cty.Value{s("%[9223372036854775809]d"), n(1)}}, {"Format", []cty.Value{s("%[18446744073709551617]d %d"), n(1)}},
+		{"FormatList", []cty.Value{s("%[9223372036854775809]s"), cty.ListVal([]cty.Value{s("a")})}},
 		{"Int", []cty.Value{inf}}, {"Int", []cty.Value{ninf}}, {"Int", []cty.Value{cty.PositiveInfinity}},
 		{"Log", []cty.Value{n(-1), n(-3)}}, {"Log", []cty.Value{n(0), n(-1)}}, {"Log", []cty.Value{inf, inf}},
 		{"Pow", []cty.Value{n(-3), cty.MustParseNumberVal("0.1")}}, {"Pow", []cty.Value{n(-2), cty.NumberFloatVal(123456.789)}},
